@@ -7,12 +7,12 @@ res = {}
 caught = {}
 import itertools
 for line in itertools.chain(*[open(l, errors='replace') for l in logs]):
-    m = re.search(r'\[(/tmp/wt2?-(C\d+)/_seeded/(\w+))\] CAUGHT by (C\d+): (.*)', line)
+    m = re.search(r'\[(/tmp/wt[0-9]?-(C\d+)/_seeded/(\w+))\] CAUGHT by (C\d+): (.*)', line)
     if m:
         key = m.group(2) + '-' + m.group(3)
         sig = re.search(r'sig=(\S+)', m.group(5))
         caught.setdefault(key, {})[m.group(4)] = sig.group(1) if sig else ''
-    m = re.search(r'RESULT (/tmp/wt2?-(C\d+)/_seeded/(\w+)) suite_ok=(\d) demo_fails_with_patch=(\d) caught_by=\[(.*?)\] tier=(\w+)', line)
+    m = re.search(r'RESULT (/tmp/wt[0-9]?-(C\d+)/_seeded/(\w+)) suite_ok=(\d) demo_fails_with_patch=(\d) caught_by=\[(.*?)\] tier=(\w+)', line)
     if m:
         key = m.group(2) + '-' + m.group(3)
         res[key] = dict(dir=m.group(1), prop=m.group(2), suite_ok=m.group(4) == '1', demo_fails=m.group(5) == '1', caught_by=m.group(6).split(), tier=m.group(7))
